@@ -174,7 +174,7 @@ int main (int argc, char **argv)
   for (k = 0; k < K; k++) {
     ProgSpec ps; VhRng r; char nm[40]; int i, tries = 0, ok = 0, n = 0, m = 1;
     RunIO io; static uint8_t *bufs[GEN_MAX_VARS]; long bytes[GEN_MAX_VARS], off[GEN_MAX_VARS]; uint64_t h = 1469598103934665603ULL;
-    GenPrintStyle st = { 0 }; VhBuf tb = { 0 }; VhBuf dtext = { 0 };
+    GenPrintStyle st = { 0 }; VhBuf tb = { 0 }; VhBuf dtext = { 0 }; int acc_int[GEN_MAX_VARS] = { 0 };
     memset (bufs, 0, sizeof bufs);
     while (!ok && tries++ < 60) {
       vh_rng_init (&r, vh_args.seed, (uint64_t) ((vh_args.start + k) * 1000 + tries));
@@ -228,13 +228,25 @@ int main (int argc, char **argv)
     emitted++;
     st.spaces_after_comma = 1; st.hex = vh_chance (&r, 1, 2);
     gen_print_orc (&ps, &tb, &st, NULL);
+    /* some 2-byte accumulators get a wider C type in the prototype (`.accumulator 2 a1 int`): the 16-bit sum arrives zero-extended */
+    for (i = 0; i < ps.nvars; i++) {
+      acc_int[i] = ps.vars[i].kind == VK_ACC && ps.vars[i].size == 2 && vh_chance (&r, 1, 2);
+      if (acc_int[i]) {
+        char key[40], *at; snprintf (key, sizeof key, ".accumulator 2 %s\n", ps.vars[i].name);
+        at = strstr (tb.p, key);
+        if (at) { VhBuf nb = { 0 }; size_t pre = (size_t) (at - tb.p) + strlen (key) - 1; vh_buf_printf (&nb, "%.*s int%s", (int) pre, tb.p, tb.p + pre); free (tb.p); tb = nb; }
+        else acc_int[i] = 0;
+      }
+    }
     fprintf (forc, "%s\n", tb.p); free (tb.p);
     fprintf (fdrv, "  if ((only < 0 || only == %d) && ol < (1 << 16) - 100) {\n    uint64_t h = 1469598103934665603ULL;\n%s", k, dtext.p ? dtext.p : "");
     /* call text in orcc's prototype order: dests, accumulators, sources, params, n, m */
     {
       VhBuf c = { 0 }; int first = 1;
 #define SEP() do { if (!first) vh_buf_printf (&c, ", "); first = 0; } while (0)
-      for (i = 0; i < ps.nvars; i++) if (ps.vars[i].kind == VK_ACC) fprintf (fdrv, "    orc_uint%d acc%d = 0x5a5a;\n", ps.vars[i].size * 8, i);
+      for (i = 0; i < ps.nvars; i++) if (ps.vars[i].kind == VK_ACC) {
+        if (acc_int[i]) fprintf (fdrv, "    int acc%d = 0x5a5a5a5a;\n", i); else fprintf (fdrv, "    orc_uint%d acc%d = 0x5a5a;\n", ps.vars[i].size * 8, i);
+      }
       vh_buf_printf (&c, "    %s (", ps.name);
       for (i = 0; i < ps.nvars; i++) if (ps.vars[i].kind == VK_DEST) { SEP (); vh_buf_printf (&c, "(void *) (b%d + %ld)", i, off[i]); if (ps.is2d) vh_buf_printf (&c, ", %d", io.stride[i]); }
       for (i = 0; i < ps.nvars; i++) if (ps.vars[i].kind == VK_ACC) { SEP (); vh_buf_printf (&c, "(void *) &acc%d", i); }
